@@ -10,8 +10,10 @@ CONSTANTS HistLen,     \* longest history
 VARIABLES col, hist,   \* the case
           done,
           exp,         \* the column after the history (code-shaped model) = what a write must store
+          outs,        \* one [oc, c] per operation: what the serialisation at that moment gives back ("none": nothing serialised)
+          fin,         \* [oc, c]: the final write of the file holding the column
           sit          \* HistSituations(col, hist)
-vars == <<col, hist, done, exp, sit>>
+vars == <<col, hist, done, exp, outs, fin, sit>>
 
 Data(t) == CASE t = 1 -> {<<-128, 127>>, <<5>>} \cup (IF Rich THEN {<<0, -1, 7>>} ELSE {})
              [] t = 2 -> {<<300, -300>>}
@@ -23,21 +25,38 @@ Types == {1, 3, 32, 33, StrT} \cup (IF Rich THEN {2} ELSE {})
 Masks(n) == {None} \cup {Some(m) : m \in IF n = 1 THEN {<<0>>, <<1>>, <<2>>}
                                          ELSE IF n = 2 THEN {<<0, 1>>, <<2, 0>>, <<1, 2>>, <<0, 0>>}
                                          ELSE {<<0, 1, 2>>, <<2, 2, 0>>, <<0, 0, 0>>}}
-Hists == UNION {[1..k -> ReadOps] : k \in 0..HistLen}
+\* every history of read accesses and write operations up to the bound; at length 3 (thorough) the histories that
+\* consist of read accesses only or have a write operation in the middle (something before it, something after it)
+Hists == UNION {[1..k -> Ops] : k \in 0..(IF HistLen > 2 THEN 2 ELSE HistLen)}
+         \cup (IF HistLen > 2 THEN [1..3 -> ReadOps] \cup {h \in [1..3 -> Ops] : h[2] \in WriteOps} ELSE {})
 
 Init == /\ \E t \in Types : \E v \in Data(t) : \E m \in Masks(Len(v)) : col = Col(Arr(t, v), m)
         /\ hist \in Hists
-        /\ done = FALSE /\ exp = col /\ sit = {}
+        /\ done = FALSE /\ exp = col /\ outs = <<>> /\ fin = Out("none", col) /\ sit = {}
 Compute ==
   /\ ~done /\ done' = TRUE
-  /\ exp' = After(col, hist)
-  /\ sit' = HistSituations(col, hist)
+  /\ LET F == Final(col, None, hist) IN
+       /\ exp' = After(col, hist)
+       /\ outs' = SubSeq(F.outs, 1, Len(hist))
+       /\ fin' = F.outs[Len(hist) + 1]
+       /\ sit' = HistSituations(col, hist)
   /\ UNCHANGED <<col, hist>>
 Next == Compute
 Spec == Init /\ [][Next]_vars
 
-\* no history of read accesses changes the column: what is written afterwards is what the caller built
-InvReadOnly == done => exp = col
+\* no read access changes the column: the content is what the caller built and wrote into it
+InvReadOnly == done => exp = Written(col, hist)
+\* every serialisation gives back the content of its moment (declaratively: the write operations before it applied
+\* to what was built), or is refused - only a string column that was serialised before and whose data were written
+\* since; operations that serialise nothing give nothing
+SerOut(o, k) ==
+  \/ o.oc = "ok" /\ o.c = Written(col, SubSeq(hist, 1, k))
+  \/ /\ o.oc = "Rejected" /\ col.d.t = StrT
+     /\ \E i \in 1..k : \E j \in (i + 1)..k : hist[i][1] \in {"serialize", "write"} /\ hist[j][1] = "set_data"
+InvOuts == done => /\ Len(outs) = Len(hist)
+                   /\ \A k \in DOMAIN hist : IF hist[k][1] \in SerOps THEN SerOut(outs[k], k - 1) ELSE outs[k].oc = "none"
+                   /\ SerOut(fin, Len(hist))
+                   /\ (col.d.t # StrT => fin.oc = "ok")
 InvDomain == Dom_Col(col) /\ Dom_Hist(hist)
 \* ... and the model would notice an access that writes into the stored array
 ASSUME LET C == Col(Arr(3, <<11, 22, 33>>), Some(<<0, 1, 2>>)) IN
@@ -46,4 +65,19 @@ ASSUME LET C == Col(Arr(3, <<11, 22, 33>>), Some(<<0, 1, 2>>)) IN
          /\ HistSituations(C, <<<<"as_array", "same", TRUE>>>>) = {"PlaceholderIntoStoredDtype"}
          /\ HistSituations(C, <<<<"as_array", "str", FALSE>>, <<"as_array", "none", FALSE>>>>) = {"PlaceholderIntoOtherDtype", "AccessWithoutWrite"}
          /\ HistSituations(Col(Arr(StrT, <<<<"a">>>>), Some(<<1>>)), <<<<"as_array", "none", FALSE>>>>) = {"PlaceholderIntoStoredDtype"}
+\* the write operations, and the serialisations that follow them
+ASSUME LET C == Col(Arr(3, <<11, 22, 33>>), Some(<<0, 1, 2>>))
+           S == Col(Arr(StrT, << <<"a", "b">>, <<>> >>), None)
+           sd == <<"set_data", "none", FALSE>>  sa == <<"set_data", "none", TRUE>>  sm == <<"set_mask", "none", TRUE>>
+           ser == <<"serialize", "none", FALSE>>  wr == <<"write", "none", FALSE>>  cp == <<"compress", "none", FALSE>>
+       IN /\ After(C, <<sd>>).d.v = <<11, 22, 34>> /\ After(C, <<sa, sm>>) = Col(Arr(3, <<12, 23, 34>>), Some(<<1, 2, 0>>))
+          /\ After(C, <<<<"assign", "none", FALSE>>>>) = After(C, <<sa, sm>>)
+          /\ Bump(1, 127) = 126 /\ Bump(33, Fin(0)) = Fin(Scale) /\ Bump(33, Fin(-524288)) = Fin(524288) /\ Bump(32, PInf) = NInf
+          /\ After(S, <<sa>>).d.v = << <<"c", "b">>, <<"c">> >> /\ After(S, <<sa, sa>>).d.v = << <<"a", "b">>, <<"a">> >>
+          /\ Final(C, None, <<ser, sd>>).outs[3] = Out("ok", After(C, <<sd>>))
+          /\ HistSituations(C, <<ser, sd>>) = {"AccessWithoutWrite", "DataWrittenBetweenSerialisations"}
+          /\ Final(S, None, <<wr, sd>>).outs[3].oc = "Rejected" /\ Final(S, None, <<cp, sd>>).outs[3].oc = "ok"
+          /\ Final(S, None, <<wr, sd, <<"assign", "none", FALSE>>>>).outs[4].oc = "ok"
+          /\ Final(S, None, <<wr, sa, sa>>).outs[4].oc = "Rejected"
+          /\ LET T == Col(Arr(StrT, << <<"a">> >>), None) IN Final(T, None, <<wr, sa, sa>>).outs[4] = Out("ok", T)
 =============================================================================
